@@ -21,7 +21,10 @@ RULE = ("case = (parameter list [(name, default)], decorator options positional/
         "lacking a default may follow a defaulted one), 6 % contain *args / **kwargs / positional-only parameters; plus "
         "namespaces of 2-4 tasks (namesakes with different signatures, tasks wrapping the SAME function with different decorator "
         "options, one Task object under several names / in several collections): every context of to_contexts() against its own task's signature (fresh task, model, oracle, "
-        "parse + bind through the namespace's Executor); a case is non-trivial when it has >= 2 parameters or a decorator option is set; distinct = "
+        "parse + bind through the namespace's Executor); 15 % of the signatures use parameter names that the machinery itself "
+        "uses as identifiers (context, task, call, args, kwargs, self, c, config, name, hide, echo, ...), as flags and as "
+        "positionals; the first delivery of every case and every namespace delivery goes through the real "
+        "Executor.execute, a sample also through Program.run(argv); a case is non-trivial when it has >= 2 parameters or a decorator option is set; distinct = "
         "distinct (params, options) pairs")
 TRUSTED = ["Lean 4.33 kernel", "axioms propext/Classical.choice/Quot.sound only",
            "harness/props/c09.py correspondence + canonicalisation",
@@ -40,6 +43,12 @@ ASSUMPTIONS = ["parameters are plain or keyword-only parameters (in any order of
                "a list-type parameter without default is, as documented, never filled positionally and defaults to []"]
 
 VOCAB = ["a", "b", "ab", "a_b", "ab_c", "x_", "_x", "xy", "x1", "foo", "foo_bar", "f", "o", "no_x", "color", "no_color"]
+# identifiers the machinery itself uses (parameters of Executor/Call/Task/Program methods, Context/Config members,
+# run() options, core flag names): a task parameter may be called any of these
+MACHINERY = ["context", "task", "call", "args", "kwargs", "self", "c", "ctx", "config", "name", "result", "executor",
+             "collection", "core", "parser", "hide", "echo", "warn", "pty", "body", "cls", "exit", "argv", "help", "list",
+             "debug", "dry", "tasks", "called_as", "pre", "post", "default", "value", "kind", "flag", "positional",
+             "optional", "iterable", "env", "command", "timeout", "e", "w", "p", "r", "d", "l", "V", "D", "F", "T", "h"]
 RARE = ["a__b", "no_a", "no_foo_bar", "B", "_a_b_", "x", "no_ab"]
 # kind tag -> (python source of the default | None, model encoding)
 KINDS = {
@@ -117,14 +126,14 @@ def signature_text(params, shape=None):
 
 def build_body(params, shape=None):
     sig = signature_text(params, shape)
-    ns = {"_log": [], "_snap": snap_values}
+    ns = {"_log": [], "_snap": snap_values, "_dict": dict, "_isinst": isinstance, "_list_t": list}  # (a parameter may be called `list`)
     # the body records what it received (a copy) and then does what task bodies do: it mutates the mutable
     # values it was given in place (appends to every list), so that any sharing with a later invocation shows
-    exec("def body(c%s):\n"
-         "    _r = dict(locals()); _r.pop('c')\n"
+    exec("def body(_ctx0%s):\n"
+         "    _r = _dict(locals()); _r.pop('_ctx0')\n"
          "    _s = _snap(_r); _log.append(_s)\n"
          "    for _v in _r.values():\n"
-         "        if isinstance(_v, list): _v.append('MUT')\n"
+         "        if _isinst(_v, _list_t): _v.append('MUT')\n"
          "    return _s\n" % ((", " + sig) if sig else ""), ns)
     return ns["body"]
 
@@ -546,23 +555,57 @@ def oracle_kwargs(params, body, kw, mentioned, by_name, given=None):
     return fails
 
 
-def oracle_executor(task, pctx):
-    """the kwargs the Executor would pass: normalize -> Call -> task(Context, **kwargs); `task` may be the whole
-    namespace the parsed context belongs to"""
-    from invoke import Collection, Executor
-    c = shared_context()
-    ex = Executor(task if isinstance(task, Collection) else Collection(task), config=_SHARED["cfg"])
-    calls = ex.normalize([pctx])
-    if len(calls) != 1:
-        return ["executor-calls param=- %d calls" % len(calls)]
+def oracle_executor(task, pctx, real=True):
+    """End to end: the parsed context goes through the real `Executor.execute` (normalize -> Call -> config and
+    context set-up -> the executor's own hand-off to the task) and the body must receive exactly the parsed values.
+    `task` may be the whole namespace the parsed context belongs to.  With real=False (repeat deliveries of the
+    mutation histories, where only the values matter) the Call made by `Executor.normalize` is invoked directly."""
+    from invoke import Collection, Config, Executor
+    shared_context()
+    if "cfg2" not in _SHARED:
+        _SHARED["cfg2"] = Config(overrides={"tasks": {"dedupe": False}})
+    coll = task if isinstance(task, Collection) else Collection(task)
     want = snap_values(pctx.as_kwargs)  # before the body gets (and mutates) them
+    log = coll[pctx.name].body.__globals__["_log"]
+    del log[:]
     try:
-        got = calls[0].task(c, **calls[0].kwargs)
+        ex = Executor(coll, config=_SHARED["cfg2"])
+        if real:
+            ex.execute(pctx)
+        else:
+            for call in ex.normalize([pctx]):
+                call.task(_SHARED["ctx"], **call.kwargs)
     except TypeError as e:
-        return ["kwargs-do-not-bind param=- calling the task: %s" % e]
-    if got != want:
-        return ["executor-kwargs param=- body received %r, context holds %r" % (got, want)]
+        return ["kwargs-do-not-bind param=- executing the task: %s" % e]
+    if len(log) != 1:
+        return []  # how often a task runs is C04's business
+    if log[0] != want:
+        return ["executor-kwargs param=- body received %r, context holds %r" % (log[0], want)]
     return []
+
+
+def program_history(case, impl, step):
+    """the same through `Program.run(argv)`: core parse, task parse, Executor, body"""
+    import contextlib
+    import io
+    from invoke import Collection, Program
+    params = [tuple(p) for p in case["params"]]
+    argv, mentioned, given = step
+    _, t = build_task(params, impl.opts, impl.shape, body=impl.body)
+    log = impl.body.__globals__["_log"]
+    del log[:]
+    sink = io.StringIO()
+    try:
+        with contextlib.redirect_stdout(sink), contextlib.redirect_stderr(sink):
+            Program(namespace=Collection(t)).run(["inv", "t"] + list(argv), exit=False)
+    except TypeError as e:
+        return ["program:kwargs-do-not-bind param=- `inv t %s`: %s" % (" ".join(argv), e)]
+    except BaseException:  # noqa: a core flag may claim a token; C18's business
+        return []
+    if len(log) != 1:
+        return []
+    by_name = {a.name: a for a in impl.args}
+    return ["program:" + f for f in oracle_kwargs(params, impl.body, log[0], mentioned, by_name, given)]
 
 
 def norm_step(x):
@@ -589,17 +632,20 @@ def kwargs_history(case, impl, stats):
         if record:
             stats.append((argv, None if err else show_kw(kw), err))
         if err:
-            return  # whether this spelling parses is C01/C07's business
+            return False  # whether this spelling parses is C01/C07's business
         fs = oracle_kwargs(params, impl.body, kw, mentioned, by_name, given)
-        fs += oracle_executor(impl.task, pctx)  # normalize -> Call -> body, which mutates what it was given
+        # Executor -> Call -> body, which mutates what it was given (the real `execute` for the first delivery)
+        fs += oracle_executor(impl.task, pctx, real=record and not stats[1:])
         fails.extend(tag + ":" + f for f in fs)
+        return True
 
     same = Parser(contexts=[impl.ctx])
-    for st in steps:
-        one("after-parse", st, same, True)
+    parsed = [one("after-parse", st, same, True) for st in steps]
     one("new-parser-again", steps[0], None, False)
     if case.get("h3"):
         fails += session_history(case, impl, params, by_name, steps[0], steps[-1])
+    if case.get("prog") and parsed[0]:
+        fails += program_history(case, impl, steps[0])
     after = template_snapshot(impl)
     if after != before:
         fails.append("template-changed param=- parsing/executing changed the template context: %s -> %s" % (before[1], after[1]))
@@ -644,6 +690,8 @@ def check_case(case, rng=None, n_argv=2):
     if rng is not None and "argvs" not in case:
         case["argvs"] = [[a, m, g] for a, m, g in make_argvs(rng, impl, n_argv)] if nontrivial(case) or rng.random() < 0.3 else []
         case["h3"] = bool(case["argvs"]) and rng.random() < 0.2
+        machinery = any(n in MACHINERY for n, _ in params)
+        case["prog"] = bool(case["argvs"]) and rng.random() < (0.2 if machinery else 0.015)
     fails = oracle_signature(params, opts, impl)
     fails += generation_history(impl)
     stats = []
@@ -809,6 +857,7 @@ def replay(case):
     return (not fails), (fails[0] if fails else "ok")
 
 
+KNOWN_NAME = {"C09-param-named-self": "self"}
 KNOWN_SHAPE = {"C09-var-positional-param": "vp", "C09-var-keyword-param": "vk", "C09-positional-only-param": "po"}
 UNDELIVERABLE = ("kwargs-do-not-bind", "executor-kwargs", "given-value-not-delivered")
 
@@ -821,8 +870,14 @@ def match_known(entry, failure):
     """`*args`, `**kwargs` and positional-only parameters are exposed as ordinary (required positional) arguments
     whose values cannot be handed to the function by keyword: exactly the binding/delivery failures of a signature
     that contains such a parameter."""
-    sh = KNOWN_SHAPE.get(entry.get("id"))
     tag = failure_tag(failure["why"])
+    nm = KNOWN_NAME.get(entry.get("id"))
+    if nm is not None:
+        # Task.__call__(self, *args, **kwargs): a task parameter called `self` cannot be passed by keyword
+        tasks = failure["case"].get("tasks") or [failure["case"]]
+        return tag == "kwargs-do-not-bind" and "'%s'" % nm in failure["why"] and \
+            any(p[0] == nm for t in tasks for p in t["params"])
+    sh = KNOWN_SHAPE.get(entry.get("id"))
     if sh is None or "tasks" in failure["case"]:
         return False
     if tag not in UNDELIVERABLE and not (sh == "vk" and tag == "default-not-carried"):
@@ -885,6 +940,11 @@ def random_case(rng):
     names = rng.sample(pool, k)
     if rng.random() < 0.03:
         names[rng.randrange(k)] = rng.choice(["_", "__"])  # blank CLI name (#29, now refused with ValueError)
+    if rng.random() < 0.15:
+        for i in rng.sample(range(k), rng.choice([1, 1, 2]) if k > 1 else 1):
+            m = rng.choice(MACHINERY)
+            if m not in names:
+                names[i] = m  # as a flag or as a positional, whatever kind position i gets
     kinds = [rng.choice(MAIN_KINDS + ["E", "E", "T", "F", "S", "I", "N", "I0", "S0", "L0"]) for _ in names]
     params, shape = random_shape(rng, list(zip(names, kinds)))
     case = {"params": [list(p) for p in params], "opts": random_opts(rng, params)}
@@ -981,6 +1041,10 @@ def run(ctx):
             out.hist["history:parse-mutate-parse"] += 1
         if c.get("h3"):
             out.hist["history:two-invocations-executor"] += 1
+        if c.get("prog"):
+            out.hist["history:program-run"] += 1
+        if any(n in MACHINERY for n, _ in params):
+            out.hist["names:machinery-identifier"] += 1
         out.hist["history:5-generations"] += 1
         shp = c.get("shape") or []
         out.hist["shape:" + ("+".join(sorted(set(shp) - {"pk"})) or "plain")] += 1
@@ -1016,7 +1080,7 @@ def run(ctx):
             out.hist["oracle-only"] += 1
         for f in fails:
             out.hist["fail:" + f.split(" ")[0]] += 1
-            if any(match_known({"id": i}, {"case": c, "why": f}) for i in KNOWN_SHAPE):
+            if any(match_known({"id": i}, {"case": c, "why": f}) for i in list(KNOWN_SHAPE) + list(KNOWN_NAME)):
                 # keep a few of the known ones, so that the (capped) failure list cannot fill up with them
                 out.hist["fail:known-undeliverable-kind"] += 1
                 if out.hist["fail:known-undeliverable-kind"] > 30:
